@@ -127,9 +127,13 @@ func pwdOf(class string) []byte {
 func samePriv(a, b *sm2.PrivateKey) bool {
 	return a != nil && b != nil && a.D.Cmp(b.D) == 0 && a.X.Cmp(b.X) == 0 && a.Y.Cmp(b.Y) == 0
 }
-func samePub(a, b *sm2.PublicKey) bool { return a != nil && b != nil && a.X.Cmp(b.X) == 0 && a.Y.Cmp(b.Y) == 0 }
+func samePub(a, b *sm2.PublicKey) bool {
+	return a != nil && b != nil && a.X.Cmp(b.X) == 0 && a.Y.Cmp(b.Y) == 0
+}
 
-func pemCert(der []byte) []byte { return pem.EncodeToMemory(&pem.Block{Type: "CERTIFICATE", Bytes: der}) }
+func pemCert(der []byte) []byte {
+	return pem.EncodeToMemory(&pem.Block{Type: "CERTIFICATE", Bytes: der})
+}
 
 func runC14(c map[string]string, dir string, thorough bool) map[string]interface{} {
 	got := map[string]interface{}{}
